@@ -20,7 +20,7 @@ RULE = (
 )
 ASSUMPTIONS = ["class comparison bounded by N=6 (quick) / 7 (thorough, classical)", "oracle: vf/oracle/mesh.py region semantics for mesh-in-mesh containment"]
 REQUIRED = ["calls.Basis.__new__", "calls.MeshBasis.__new__", "pruned.classical", "pruned.mesh", "mixed.subclasses", "orders.compared",
-            "from_string.checked", "av_identity.checked", "identity_history.checked", "collections.two_monotone_plus_avoiders", "collections.big_antichains", "twins.rebuilt_collections", "subclass_identity.checked"]
+            "from_string.checked", "av_identity.checked", "identity_history.checked", "collections.two_monotone_plus_avoiders", "collections.big_antichains", "twins.rebuilt_collections", "subclass_identity.checked", "collections.long_and_induced_short", "collections.blocked_regions"]
 MIN_NONTRIVIAL = 100
 CTX = None
 MON = None
@@ -327,6 +327,44 @@ def run(ctx, spec):
             if rng.random() < 0.03:
                 col.append(enc(MeshPatt(Perm(), [(0, 0)])))
                 ctx.count("k5_inputs")
+            if rng.random() < 0.15:
+                # a densely shaded pattern of length 3-4 together with patterns induced on one or two of its points (one cell
+                # changed): containment between mesh patterns whose lengths differ by two or more
+                k = rng.choice([3, 3, 4])
+                q = tuple(rng.sample(range(k), k))
+                T = frozenset((x, y) for x in range(k + 1) for y in range(k + 1) if rng.random() < rng.choice([0.5, 0.7, 0.85]))
+                col.append({"cls": "MeshPatt", "p": list(q), "s": sorted(map(list, T))})
+                for _ in range(rng.randint(1, 2)):
+                    I = sorted(rng.sample(range(k), rng.randint(1, k - 2)))
+                    r, RS = M.induced(q, T, I)
+                    RS = set(RS)
+                    cells = [(x, y) for x in range(len(r) + 1) for y in range(len(r) + 1)]
+                    c = rng.choice(cells)
+                    RS ^= {c} if rng.random() < 0.6 else set()
+                    col.append({"cls": "MeshPatt", "p": list(r), "s": sorted(map(list, RS))})
+                ctx.count("collections.long_and_induced_short")
+            for _rep in range(3):
+                # "blocked region": in a pattern q a whole region between some kept points is shaded although dropped points sit
+                # inside it, so the pattern induced on the kept points may NOT shade the corresponding cell; the short pattern of
+                # the collection shades exactly that cell (it is then not contained in q through these points)
+                for _try in range(20):
+                    k = rng.choice([3, 4, 5])
+                    q = tuple(rng.sample(range(k), k))
+                    I = sorted(rng.sample(range(k), rng.randint(1, k - 2)))
+                    T = set((x, y) for x in range(k + 1) for y in range(k + 1) if rng.random() < rng.choice([0.2, 0.5]))
+                    vert = [0] + [i + 1 for i in I] + [k + 1]
+                    hori = [0] + sorted(q[i] + 1 for i in I) + [k + 1]
+                    x, y = rng.randrange(len(I) + 1), rng.randrange(len(I) + 1)
+                    T2 = T | {(cx, cy) for cx in range(vert[x], vert[x + 1]) for cy in range(hori[y], hori[y + 1])}
+                    r, RS = M.induced(q, frozenset(T2), I)
+                    if (x, y) in RS:
+                        continue  # nothing hidden there
+                    pair = [{"cls": "MeshPatt", "p": list(q), "s": sorted(map(list, T2))},
+                            {"cls": "MeshPatt", "p": list(r), "s": sorted(map(list, set(RS) | {(x, y)}))}]
+                    chk_collection(ctx, pair, 2)  # on their own (short random patterns would prune everything anyway)
+                    chk_collection(ctx, pair + [rng.sample(range(5), 5)], 6)
+                    ctx.count("collections.blocked_regions")
+                    break
             rng.shuffle(col)
             chk_collection(ctx, col, 24 if len(col) <= 4 else 12)
             if rng.random() < 0.1:
